@@ -25,7 +25,7 @@ pub const META_C16: Meta = Meta {
 pub const META_C17: Meta = Meta {
     id: "C17",
     level: "exploration",
-    rule: "Cases: Accept-Encoding from the C16 generators (and absent, and arbitrary bytes) x gzip level 0..=9 x chunk size {1,16,4096} x method {GET, HEAD, POST} x request given as Request and as Parts x the header given as one, two or three field lines x {no earlier body, an earlier body on the same thread whose response was dropped with unflushed bytes / whose writer was aborted / that completed} x builder call histories (earlier with_gzip_level calls overridden by the last one, with_chunk_size before or after) x small payloads of four classes. Oracle: Vary lists accept-encoding; Content-Encoding: gzip present iff should_gzip(headers) and level > 0 (the crate's own function, and on grammatical values also the C16 reference); no other Content-Encoding; after writing and dropping the writer the body is one gzip member decoding to the payload iff the header says gzip, otherwise the payload verbatim; Request and Parts agree; every non-HEAD method gets a writer. Non-trivial = weighted Accept-Encoding, or level 0 with gzip preferred; distinct by fingerprint of case.",
+    rule: "Cases: Accept-Encoding from the C16 generators (and absent, and arbitrary bytes) x gzip level 0..=9 x chunk size {1,16,4096} x method {GET, HEAD, POST} x request given as Request and as Parts x request version {0.9, 1.0, 1.1, 2, 3} x the header given as one, two or three field lines x {no earlier body, an earlier body on the same thread whose response was dropped with unflushed bytes / whose writer was aborted / that completed} x builder call histories (earlier with_gzip_level calls overridden by the last one, with_chunk_size before or after) x small payloads of four classes. Oracle: Vary lists accept-encoding; Content-Encoding: gzip present iff should_gzip(headers) and level > 0 (the crate's own function, and on grammatical values also the C16 reference); no other Content-Encoding; after writing and dropping the writer the body is one gzip member decoding to the payload iff the header says gzip, otherwise the payload verbatim; Request and Parts agree; every non-HEAD method gets a writer. Non-trivial = weighted Accept-Encoding, or level 0 with gzip preferred; distinct by fingerprint of case.",
     assumptions: &["gzip level within the documented 0..=9"],
 };
 
@@ -450,6 +450,9 @@ pub struct Case17 {
     /// aborted; 3 written, dropped and drained normally. Bodies must not influence each other.
     #[serde(default)]
     pub prior: u8,
+    /// request version: 0 the `http` crate's default (HTTP/1.1), 1 HTTP/1.0, 2 HTTP/0.9, 3 HTTP/2, 4 HTTP/3
+    #[serde(default)]
+    pub version: u8,
 }
 
 struct Built {
@@ -484,7 +487,13 @@ fn build17(c: &Case17, as_parts: bool, payload: &[u8]) -> Result<Built, String> 
                 }
             }
         }
-        let mut b = http::Request::builder().method(c.method.as_str()).uri("/");
+        let mut b = http::Request::builder().method(c.method.as_str()).uri("/").version(match c.version {
+            1 => http::Version::HTTP_10,
+            2 => http::Version::HTTP_09,
+            3 => http::Version::HTTP_2,
+            4 => http::Version::HTTP_3,
+            _ => http::Version::HTTP_11,
+        });
         if let Some(ae) = &c.accept_encoding {
             b = b.header("accept-encoding", http::HeaderValue::from_bytes(&ae.0).unwrap());
         }
@@ -655,6 +664,7 @@ fn c17_strategy() -> BoxedStrategy<Case17> {
                 c.more_lines = more;
             }
             // a third of the cases follow an earlier body on the same thread
+            c.version = ((c.payload_len / 3 + c.chunk as u32) % 8) as u8 % 5;
             c.prior = match (c.payload_len + c.level) % 9 {
                 0 => 1,
                 1 => 2,
@@ -690,6 +700,7 @@ fn c17_single_line_strategy() -> BoxedStrategy<Case17> {
             write_mode,
             more_lines: vec![],
             prior: 0,
+            version: 0,
         })
         .boxed()
 }
@@ -716,8 +727,16 @@ pub fn run_c17(cx: &Cx) -> Acc {
                         write_mode: (level as u8 + chunk as u8) % 3,
                         more_lines: vec![],
             prior: 0,
+            version: 0,
                     };
                     acc.run_case(cx, "enumerated", &c, |acc| check_c17(&c, acc));
+                    // the request's HTTP version plays no part
+                    if chunk == 16 {
+                        for version in 1..=4u8 {
+                            let c4 = Case17 { version, ..c.clone() };
+                            acc.run_case(cx, "enumerated", &c4, |acc| check_c17(&c4, acc));
+                        }
+                    }
                     // an earlier body on the same thread must not show in this one
                     if method == "GET" {
                         for prior in 1..=3u8 {
@@ -757,6 +776,7 @@ pub fn run_c17(cx: &Cx) -> Acc {
                             write_mode: 0,
                             more_lines: more,
                             prior: 0,
+                            version: 0,
                         };
                         acc.run_case(cx, "repeated-header", &c, |acc| check_c17(&c, acc));
                     }
@@ -781,6 +801,7 @@ pub fn run_c17(cx: &Cx) -> Acc {
             write_mode,
             more_lines: vec![],
             prior: 0,
+            version: 0,
         };
         acc.run_case(cx, "large-payloads", &c, |acc| check_c17(&c, acc));
     }));
